@@ -146,6 +146,7 @@ type thSession struct {
 	droppedOldest      int
 	refusedTooOld      int
 	outOfOrder         int
+	ahead              int // flights reported before the day they leave
 	ties               int
 	removes            int
 	updates            int
@@ -577,8 +578,12 @@ func genTH(rng *Rng, mode string, long bool) *thSession {
 		}
 		for k := 0; k < nops; k++ {
 			switch r := rng.Intn(20); {
-			case r < 9: // today's flight
+			case r < 9: // today's flight, or one reported ahead of its departure (the next updates fall before it leaves)
 				f := mkFlight(day)
+				if rng.Chance(1, 5) {
+					f = mkFlight(day + uint64(rng.Range(1, 4)))
+					s.ahead++
+				}
 				if rng.Chance(1, 6) {
 					s.addRemoveProbe(f)
 				}
